@@ -93,7 +93,13 @@ Inductive op :=
    Message.initReadLimit: the configured TraverseLimit, or the 64 MiB default when it is 0.
    [fixed] = false is the seeded variant that re-arms with the default whatever was configured.
    The observation is the budget after the reset. *)
-| OReset (fixed : bool).
+| OReset (fixed : bool)
+(* the application-controlled budget API (message.go): Message.ResetReadLimit(limit uint64) sets
+   the remaining budget, Message.Unread(sz Size) adds to it (atomic.AddUint64: wraps at 2^64).
+   Handles are unaffected; the observation is the budget afterwards.  The traversal bound then
+   holds per budget epoch (between two such calls), see LimitProofs.traversal_bound_epochs. *)
+| OResetLimit (n : Z)
+| OUnread (n : Z).
 
 Inductive oval :=
 | VPtr (r : res Ptr)
@@ -132,6 +138,8 @@ Definition step (c : config) (fx : fixes) (m : segs) (st : rstate) (o : op) : rs
     let '(t, rl) := walk c fx m dcap pcap (Z.to_nat fuel) (rs_rl st) (Ok (handle st h)) in
     (mkRS (rs_handles st) rl, VTree t rl)
   | OReset fixed => (mkRS [] (reset_limit fixed c), VNum (Ok (reset_limit fixed c)))
+  | OResetLimit n => (mkRS (rs_handles st) (u64 n), VNum (Ok (u64 n)))
+  | OUnread n => (mkRS (rs_handles st) (u64 (rs_rl st + u32 n)), VNum (Ok (u64 (rs_rl st + u32 n))))
   end.
 
 Fixpoint run (c : config) (fx : fixes) (m : segs) (st : rstate) (ops : list op) : rstate * list oval :=
